@@ -22,4 +22,7 @@ def units(tier):
 
 
 def runner_tasks(tier):
-    return []
+    return [{"module": "c17", "task": "sample", "kind": "bounded", "clause": "calculator vs direct neutron_sld and documented equations"}]
+
+
+REPLAY = {'module': 'c17', 'task': 'replay'}
